@@ -160,10 +160,10 @@ Proof.
   - eapply PB_same; [eapply PB_end_scope; eauto|reflexivity].
 Qed.
 
-Lemma PB_step s n t s1 : Inv s -> PB s -> step s n t = Ok s1 -> PB s1.
+Lemma PB_step_end s n bare ends s1 : Inv s -> PB s -> step_end s n bare ends = Ok s1 -> PB s1.
 Proof.
-  intros I H E. destruct t as [bare ends|lbl|k name|lbl name|ty name|name|name|pro| |]; cbn [step] in E.
-  - destruct (eregex s) as [r|]; [|inversion E; now subst].
+  intros I H E. unfold step_end in E.
+    destruct (eregex s) as [r|]; [|inversion E; now subst].
     destruct (cur_kind s) as [k|]; [|discriminate].
     match type of E with context [if ?c then ?a else s] => set (s0 := if c then a else s) in * end.
     assert (H0 : PB s0) by (unfold s0; match goal with |- PB (if ?c then _ else _) => destruct c end; [eapply PB_same; [exact H|reflexivity]|exact H]).
@@ -173,6 +173,12 @@ Proof.
       destruct (end_scope s2 n true) as [s3|] eqn:E3; cbn in E; [|discriminate]. inversion E; subst.
       eapply PB_end_scope; [eapply PB_end_scope; eauto|eauto].
     + destruct (end_scope s0 n true) as [s3|] eqn:E3; cbn in E; [|discriminate]. inversion E; subst. eapply PB_end_scope; eauto.
+Qed.
+
+Lemma PB_step s n t s1 : Inv s -> PB s -> step s n t = Ok s1 -> PB s1.
+Proof.
+  intros I H E. destruct t as [bare ends|lbl|k name|lbl name|ty name|name|name|pro| | |bare ends lbl]; cbn [step] in E.
+  - eapply PB_step_end; eauto.
   - destruct (eregex s); [|inversion E; now subst].
     destruct (cur_kind s) as [k|]; [|discriminate].
     destruct k; try (inversion E; now subst). eapply PB_close_labels; eauto.
@@ -197,6 +203,12 @@ Proof.
     eapply PB_ensure; eauto.
   - eapply PB_ensure; eauto.
   - inversion E; now subst.
+  - (* labelled END DO: the scope part is that of END, the label list does not matter *)
+    destruct (step_end s n bare ends) as [s2|] eqn:E2; [|discriminate].
+    pose proof (PB_step_end s n bare ends s2 I H E2) as H2.
+    destruct (cur_kind s) as [[]|]; try (inversion E; now subst).
+    destruct (labels s2) as [|top rest]; [inversion E; now subst|].
+    destruct (_ && _); inversion E; subst; [eapply PB_same; [exact H2|reflexivity]|exact H2].
 Qed.
 
 Lemma PB_run l : forall s n s1, Inv s -> PB s -> run s n l = Ok s1 -> PB s1.
